@@ -14,6 +14,7 @@ package main
 
 import (
 	"context"
+	"flag"
 	"fmt"
 	"strconv"
 	"strings"
@@ -191,10 +192,11 @@ type params struct {
 	fault   string // silent: the round-1 leader of the later duties broadcasts nothing; lost: its round-1 proposal is lost
 	rcDelay int    // percent of the round allowance by which round-change messages are delayed (0 = delivered at once)
 	duties  int    // number of duties (the first one is fault-free)
+	late    int    // later duties are executed this many percent of a round allowance AFTER their slot started (150: between the deadlines of rounds 1 and 2)
 }
 
 func (p params) String() string {
-	return fmt.Sprintf("case role=%s n=%d fault=%s rcdelay=%d duties=%d", p.role, p.n, p.fault, p.rcDelay, p.duties)
+	return fmt.Sprintf("case role=%s n=%d fault=%s rcdelay=%d duties=%d late=%d", p.role, p.n, p.fault, p.rcDelay, p.duties, p.late)
 }
 
 func dutyFor(kind rkit.Kind, slot phase0.Slot) *spectypes.Duty {
@@ -210,12 +212,21 @@ type caseResult struct {
 	rounds []uint64 // per duty: highest round announced
 }
 
+// signerFor lets a mode substitute the key manager of an operator (router mode: a recording one); onlyOp > 0 builds that operator alone.
+var (
+	signerFor func(id int) spectypes.KeyManager
+	onlyOp    int
+)
+
 func buildWorld(p params, kind rkit.Kind, quick time.Duration) (*world, *glueBeacon, context.CancelFunc) {
 	ks := rkit.KeySet(p.n)
 	ctx, cancelAll := context.WithCancel(context.Background())
 	w := &world{ops: make([]*operator, p.n+1), silent: map[int]bool{}, quorum: int(ks.Threshold)}
 	bn := &glueBeacon{Network: networkconfig.TestNetwork.Beacon.GetNetwork(), starts: map[phase0.Slot]time.Time{}}
 	for id := 1; id <= p.n; id++ {
+		if onlyOp > 0 && id != onlyOp {
+			continue
+		}
 		db, err := kv.NewInMemory(nop, basedb.Options{})
 		if err != nil {
 			panic(err)
@@ -232,6 +243,9 @@ func buildWorld(p params, kind rkit.Kind, quick time.Duration) (*world, *glueBea
 			Signer:           tu.NewTestingKeyManager(),
 			BuilderProposals: kind.Blinded,
 		}
+		if signerFor != nil {
+			opts.Signer = signerFor(id)
+		}
 		opts.DutyRunners = opvalidator.SetupRunners(octx, nop, opts) // the production wiring
 		for _, r := range opts.DutyRunners {
 			if c := r.GetBaseRunner().QBFTController; c != nil {
@@ -244,6 +258,9 @@ func buildWorld(p params, kind rkit.Kind, quick time.Duration) (*world, *glueBea
 		w.ops[id] = &operator{id: id, v: v, cancel: ocancel, db: db, w: w}
 	}
 	for id := 1; id <= p.n; id++ {
+		if w.ops[id] == nil {
+			continue
+		}
 		if _, err := w.ops[id].v.Start(nop); err != nil {
 			panic(err)
 		}
@@ -338,6 +355,7 @@ func runCase(p params, quick time.Duration) caseResult {
 	defer w.shutdown(cancelAll)
 	f := (p.n - 1) / 3
 	res := caseResult{ok: true}
+	var prevArmed time.Time
 	base := kind.Duty(0).Slot
 	for di := 0; di < p.duties; di++ {
 		slot := base + phase0.Slot(1+4*di+di) // heights with different round-1 leaders
@@ -359,11 +377,27 @@ func runCase(p params, quick time.Duration) caseResult {
 			w.rcDelay = quick * time.Duration(p.rcDelay) / 100
 		}
 		w.mu.Unlock()
+		if faulty && p.late > 0 && !prevArmed.IsZero() {
+			// the round timer is one object per runner and a timer armed in the previous duty may still be pending: it would fire
+			// into THIS duty's handler and hide a round that never got its own timer; let every earlier deadline pass first
+			if d := time.Until(prevArmed); d > 0 {
+				time.Sleep(d)
+			}
+		}
 		start := time.Now()
-		bn.setStart(slot, start)
+		slotStart := start
+		if faulty && p.late > 0 {
+			// late duty start (slow pre-consensus, late scheduler): the slot-relative deadlines of the first round(s) have passed already
+			slotStart = start.Add(-quick * time.Duration(p.late) / 100)
+		}
+		bn.setStart(slot, slotStart)
 		w.startDuty(duty)
 		// every correct operator must have decided before the deadline of round f+3 (+ slack): rounds are `quick` long
 		bound := time.Duration(f+3)*quick + w.rcDelay*time.Duration(f+3) + 2*quick
+		if faulty && p.late > 0 {
+			// the rounds whose deadline passed are skipped at once, the first one that is still open may be almost over
+			bound += time.Duration(p.late/100+1) * quick
+		}
 		if !faulty {
 			bound = 4 * quick // fault-free: must finish in round 1; a slower run is scheduling noise, not a finding -> retried
 		}
@@ -396,6 +430,9 @@ func runCase(p params, quick time.Duration) caseResult {
 			case !faulty:
 				res.sig = "C07/validator-glue:fault-free-duty-not-decided"
 				res.detail = fmt.Sprintf("duty %d (slot %d): fault-free timely run, %d of %d operators decided within %v", di+1, slot, dec, correct, bound)
+			case rcs == 0 && p.late > 0:
+				res.sig = "C07/validator-glue:round-whose-deadline-already-passed-never-times-out"
+				res.detail = fmt.Sprintf("duty %d (slot %d) was executed %v after its slot started, i.e. after the deadline of round %d; round 1 cannot decide (%s round-1 leader %d) and no operator ever announced a later round (0 round-change messages); %d of %d decided within %v", di+1, slot, start.Sub(slotStart), p.late/100, p.fault, leader, dec, correct, bound)
 			case rcs == 0:
 				res.sig = "C07/validator-glue:round-timeout-without-round-change-in-later-duty"
 				res.detail = fmt.Sprintf("duty %d (slot %d) of the same validators: round 1 failed (%s round-1 leader %d), its deadline passed %v ago, yet no operator announced round 2 (0 round-change messages); %d of %d decided", di+1, slot, p.fault, leader, time.Since(start)-quick, dec, correct)
@@ -410,6 +447,15 @@ func runCase(p params, quick time.Duration) caseResult {
 		}
 		// let the post-consensus phase finish (Finished) before the next duty is scheduled
 		time.Sleep(quick / 4)
+		r := maxRound
+		if r < 1 {
+			r = 1
+		}
+		// latest deadline a timer armed during this duty can have (slot-relative roles: slot start + round * quick; proposer: arming + quick)
+		prevArmed = slotStart.Add(time.Duration(r+1)*quick + quick/5)
+		if t := time.Now().Add(quick + quick/5); kind.Role == spectypes.BNRoleProposer && t.After(prevArmed) {
+			prevArmed = t
+		}
 	}
 	return res
 }
@@ -438,11 +484,17 @@ func doCase(run *hx.Run, line string) {
 	p.n, _ = strconv.Atoi(kv["n"])
 	p.rcDelay, _ = strconv.Atoi(kv["rcdelay"])
 	p.duties, _ = strconv.Atoi(kv["duties"])
+	p.late, _ = strconv.Atoi(kv["late"])
+	if p.late < 0 || p.late > 600 {
+		return
+	}
 	if (p.n != 4 && p.n != 7) || p.duties < 1 || p.duties > 4 || p.rcDelay < 0 || p.rcDelay > 90 {
 		return
 	}
 	record(run, p, p.String(), runAttempts(p))
 }
+
+var mode = flag.String("mode", "", "router: network-originated messages through the real handleRouterMessages (C03)")
 
 func main() {
 	run := hx.Start()
@@ -450,18 +502,26 @@ func main() {
 	ssvtypes.SetDefaultDomain(tu.TestingSSVDomainType)
 	if lines := run.ReplayLines(); lines != nil {
 		for _, l := range lines {
-			doCase(run, l)
+			if strings.HasPrefix(l, "rcase") {
+				doRouterCase(run, l)
+			} else {
+				doCase(run, l)
+			}
 		}
+		return
+	}
+	if *mode == "router" {
+		genRouter(run)
 		return
 	}
 	// a fixed directed set first, then seeded variations
 	directed := []params{
-		{"att", 4, "silent", 40, 2},
-		{"sc", 4, "lost", 40, 3},
-		{"att", 4, "silent", 0, 2},
-		{"prop", 4, "silent", 40, 2},
-		{"agg", 7, "silent", 40, 2},
-		{"sc", 7, "lost", 0, 2},
+		{"att", 4, "silent", 40, 2, 0},
+		{"sc", 4, "lost", 40, 3, 0},
+		{"att", 4, "silent", 0, 2, 150},
+		{"prop", 4, "silent", 40, 2, 0},
+		{"agg", 7, "silent", 40, 2, 250},
+		{"sc", 7, "lost", 0, 2, 0},
 	}
 	r := hx.NewRng(run.Seed)
 	var cases []params
@@ -476,7 +536,11 @@ func main() {
 			fault:   []string{"silent", "lost"}[r.Intn(2)],
 			rcDelay: r.Pick(0, 25, 40, 60),
 			duties:  r.Pick(2, 2, 3),
+			late:    r.Pick(0, 0, 120, 150, 250, 330),
 		})
+		if c := &cases[len(cases)-1]; c.late > 0 && c.rcDelay > 40 {
+			c.rcDelay = 40
+		}
 	}
 	// cases are independent worlds that mostly wait for timers: run a few side by side
 	par := 3
@@ -542,5 +606,8 @@ func record(run *hx.Run, p params, line string, a attemptResult) {
 			run.Tag("retried/" + r)
 		}
 	}
-	run.Seen(fmt.Sprintf("%s/n%d/%s/rc%d/d%d/%s", p.role, p.n, p.fault, p.rcDelay, p.duties, strings.Join(rs, ",")))
+	run.Seen(fmt.Sprintf("%s/n%d/%s/rc%d/d%d/late%d/%s", p.role, p.n, p.fault, p.rcDelay, p.duties, p.late, strings.Join(rs, ",")))
+	if p.late > 0 {
+		run.Tag("late-start")
+	}
 }
